@@ -38,7 +38,8 @@ Init ==
   /\ ~(cfg.x509For # "none" /\ cfg.blobFor # "none")          \* a file takes precedence; model one source at a time
   /\ cfg.path \in PgpPaths <=> cfg.pgpFor # "none"             \* PGP types need a PGP certificate, X.509 types an X.509 one
   /\ cfg.path \notin PgpPaths => (cfg.x509For # "none" \/ cfg.blobFor # "none")
-  /\ cfg.path \in PgpPaths => (cfg.x509For = "none" /\ cfg.blobFor = "none")
+  \* a key section for PGP signing may also carry the key's own X.509 certificate (as the sample configuration's does)
+  /\ cfg.path \in PgpPaths => (cfg.x509For \in {"none", cfg.priv} /\ cfg.order = "leafOnly" /\ cfg.blobFor = "none")
   /\ pc = "cfg" /\ leaf = "none" /\ chain = <<>> /\ sigBy = "none" /\ emitted = FALSE
 
 \* which certificate the loader treats as the leaf: the FIRST certificate of the source
@@ -56,7 +57,7 @@ Same(a, b) ==
 Load ==
   /\ pc = "cfg"
   /\ IF cfg.path \in PgpPaths
-       THEN IF Same(cfg.priv, cfg.pgpFor) \/ Variant = "PgpUnchecked"
+       THEN IF Same(cfg.priv, cfg.pgpFor) \/ Variant = "PgpUnchecked" \/ (Variant = "PgpSkippedBesideX509" /\ cfg.x509For # "none")
               THEN pc' = "loaded" /\ leaf' = cfg.pgpFor
               ELSE pc' = "error" /\ leaf' = "none"
        ELSE IF Same(cfg.priv, FirstCertKey)
